@@ -23,7 +23,7 @@ MCNext ==
   \/ cur # None /\ Submitting(cur.op) /\ ~cur.bound /\ ~(cur.op = "flush" /\ ~Flush) /\ Cardinality(DOMAIN out) < MaxOut
        /\ DevReq(FreeTok, ReqOf(cur))
   \/ \E t \in DOMAIN out : ~out[t].seen /\ DevReq(t, ReqOf(out[t]))
-  \/ \E t \in DOMAIN out, st \in {0, 1, 3} : out[t].seen /\ out[t].status = -1 /\ DevResp(t, st, "r" \o out[t].sector)
+  \/ \E t \in DOMAIN out, st \in {0, 1, 3} : out[t].seen /\ out[t].status = -1 /\ DevResp(t, st, "r" \o out[t].sector, <<>>)
   \/ \E t \in DOMAIN out : out[t].status # -1 /\ (\A i \in 1..Len(usedq) : usedq[i] # t) /\ DevDone(t)
   \* results: whatever the guards allow
   \/ \E ok \in BOOLEAN, e \in {"IoError", "Unsupported", "NotReady", "WrongToken", "QueueFull"}, t \in Toks, d \in {"", "r0x0", "r0x1"} :
